@@ -334,10 +334,14 @@ pub fn run_c05(p: &Params) -> Outcome {
     out.merge(random("C05", p, p.n(4_000, 60_000), &big, &nt, "c05-rand-large"));
     // giant vectors: thousands of items, dozens of subscribers, capacities in the thousands
     let giant = GenCfg { caps: &[16, 4096], maxlen: 9500, init_max: 9000, vmax: 20_000, min_ops: 10, max_ops: 40, max_subs: 40, ..big };
-    out.merge(random("C05", p, p.n(150, 4_000), &giant, &nt, "c05-rand-giant"));
+    if !p.san() {
+        out.merge(random("C05", p, p.n(150, 4_000), &giant, &nt, "c05-rand-giant"));
+    }
     // thousands of messages waiting in a channel of thousands, transactions of thousands of diffs (small vectors)
     let scale = GenCfg { caps: &[2048, 4096, 8192], maxlen: 40, init_max: 30, vmax: 20_000, min_ops: 1100, max_ops: 3000, max_subs: 3, poll_pct: 1, txn_pct: 10, ..big };
-    out.merge(random("C05", p, p.n(100, 3_000), &scale, &nt, "c05-rand-scale"));
+    if !p.san() {
+        out.merge(random("C05", p, p.n(100, 3_000), &scale, &nt, "c05-rand-scale"));
+    }
     // long backlogs below the capacity: one batched poll collects dozens of messages
     let backlog = GenCfg { caps: &[64, 128, 256, 1024], min_ops: 60, max_ops: 400, poll_pct: 3, max_subs: 3, ..g };
     out.merge(random("C05", p, p.n(2_000, 40_000), &backlog, &nt, "c05-rand-backlog"));
@@ -413,10 +417,14 @@ pub fn run_c06(p: &Params) -> Outcome {
     out.merge(random("C06", p, p.n(4_000, 60_000), &big, &nt, "c06-rand-large"));
     // giant vectors: thousands of items, dozens of subscribers, capacities in the thousands
     let giant = GenCfg { caps: &[16, 4096], maxlen: 9500, init_max: 9000, vmax: 20_000, min_ops: 10, max_ops: 40, max_subs: 40, ..big };
-    out.merge(random("C06", p, p.n(150, 4_000), &giant, &nt, "c06-rand-giant"));
+    if !p.san() {
+        out.merge(random("C06", p, p.n(150, 4_000), &giant, &nt, "c06-rand-giant"));
+    }
     // thousands of messages waiting in a channel of thousands, transactions of thousands of diffs (small vectors)
     let scale = GenCfg { caps: &[2048, 4096, 8192], maxlen: 40, init_max: 30, vmax: 20_000, min_ops: 1100, max_ops: 3000, max_subs: 3, poll_pct: 1, txn_pct: 10, ..big };
-    out.merge(random("C06", p, p.n(100, 3_000), &scale, &nt, "c06-rand-scale"));
+    if !p.san() {
+        out.merge(random("C06", p, p.n(100, 3_000), &scale, &nt, "c06-rand-scale"));
+    }
     // big channels with long backlogs: hundreds of undelivered messages around capacities 32..256
     let backlog = GenCfg { caps: &[31, 32, 33, 63, 64, 65, 100, 128, 256], min_ops: 120, max_ops: 700, poll_pct: 2, max_subs: 3, ..g };
     out.merge(random("C06", p, p.n(1_500, 30_000), &backlog, &nt, "c06-rand-backlog"));
@@ -548,10 +556,14 @@ pub fn run_c07(p: &Params) -> Outcome {
     out.merge(random("C07", p, p.n(3_000, 40_000), &big, &nt, "c07-rand-large"));
     // giant vectors: thousands of items, dozens of subscribers, capacities in the thousands
     let giant = GenCfg { caps: &[16, 4096], maxlen: 9500, init_max: 9000, vmax: 20_000, min_ops: 10, max_ops: 40, max_subs: 40, ..big };
-    out.merge(random("C07", p, p.n(150, 4_000), &giant, &nt, "c07-rand-giant"));
+    if !p.san() {
+        out.merge(random("C07", p, p.n(150, 4_000), &giant, &nt, "c07-rand-giant"));
+    }
     // thousands of messages waiting in a channel of thousands, transactions of thousands of diffs (small vectors)
     let scale = GenCfg { caps: &[2048, 4096, 8192], maxlen: 40, init_max: 30, vmax: 20_000, min_ops: 1100, max_ops: 3000, max_subs: 3, poll_pct: 1, txn_pct: 10, ..big };
-    out.merge(random("C07", p, p.n(100, 3_000), &scale, &nt, "c07-rand-scale"));
+    if !p.san() {
+        out.merge(random("C07", p, p.n(100, 3_000), &scale, &nt, "c07-rand-scale"));
+    }
     out
 }
 
@@ -774,9 +786,13 @@ pub fn run_c17(p: &Params) -> Outcome {
     out.merge(random("C17", p, p.n(3_000, 40_000), &big, &nt, "c17-rand-large"));
     // giant vectors: thousands of items, dozens of subscribers, capacities in the thousands
     let giant = GenCfg { caps: &[16, 4096], maxlen: 9500, init_max: 9000, vmax: 20_000, min_ops: 10, max_ops: 40, max_subs: 40, ..big };
-    out.merge(random("C17", p, p.n(150, 4_000), &giant, &nt, "c17-rand-giant"));
+    if !p.san() {
+        out.merge(random("C17", p, p.n(150, 4_000), &giant, &nt, "c17-rand-giant"));
+    }
     // thousands of messages waiting in a channel of thousands, transactions of thousands of diffs (small vectors)
     let scale = GenCfg { caps: &[2048, 4096, 8192], maxlen: 40, init_max: 30, vmax: 20_000, min_ops: 1100, max_ops: 3000, max_subs: 3, poll_pct: 1, txn_pct: 10, ..big };
-    out.merge(random("C17", p, p.n(100, 3_000), &scale, &nt, "c17-rand-scale"));
+    if !p.san() {
+        out.merge(random("C17", p, p.n(100, 3_000), &scale, &nt, "c17-rand-scale"));
+    }
     out
 }
